@@ -38,7 +38,7 @@ def known_for(sigd):
 
 INV = ("CodecByMagic", "StoredInSchema", "KeysAreWritten", "NothingShared")
 PROPS = ("RoundTrip", "V1DomainClosed", "PutAccepted")
-ACTIONS = ("MakeLegacy", "LegacyPut", "OpenLib", "Put", "Get", "Scribble")
+ACTIONS = ("MakeLegacy", "LegacyPut", "OpenLib", "Put", "Get", "Scribble", "Remove")
 # deviation -> the clause(s) it is documented to break
 DEVIATIONS = {
     "DevV1Ens": ("RoundTrip",),            # pinned tree: v1 ensemble reader without reshape of atomic_charges
@@ -51,17 +51,21 @@ DEVIATIONS = {
     "DevMagicAll": ("RoundTrip",),         # both objects ignore the magic: only pre-existing legacy records show it
     "DevFCharge": ("RoundTrip",),
     "DevTranspose": ("RoundTrip",),
+    "DevMemo": ("CodecByMagic",),          # the process remembers the version of a PATH across remove / re-create
+    "DevMemoRT": ("RoundTrip",),           # ... and then loses v2-only fields / cannot read legacy records
     "DevAlias": ("RoundTrip",),            # the library hands the same mutable object out again (read cache)
 }
 WORKERS = 4
 
 
-def mc_cfg(pool, keys, dev="DevNone"):
-    return dict(spec="Spec", constants={"Pool": f"<- {pool}", "Keys": f"<- {keys}", "Deviations": f"<- {dev}"},
+def mc_cfg(pool, keys, dev="DevNone", handles="H3"):
+    return dict(spec="Spec", constants={"Pool": f"<- {pool}", "Keys": f"<- {keys}", "Handles": f"<- {handles}",
+                                        "Deviations": f"<- {dev}"},
                 invariants=INV, properties=PROPS, view="View")
 
 
-TRACE_CFG = dict(spec="TraceSpec", constants={"Pool": "<- Pool0", "Keys": "<- Keys0", "Deviations": "<- DevNone"},
+TRACE_CFG = dict(spec="TraceSpec", constants={"Pool": "<- Pool0", "Keys": "<- Keys0", "Handles": "<- H3",
+                                              "Deviations": "<- DevNone"},
                  invariants=INV)
 
 
@@ -95,6 +99,20 @@ def gen_sessions(seed, n_per, per_lib):
         for ver in (2, 1):
             for s in range(n_per // per_lib):
                 out.append({"source": "gen", "kind": kind, "ver": ver, "gen_seed": f"{seed}/{kind}/{ver}/{s}", "n": per_lib})
+    return out
+
+
+def reuse_sessions(seed, n):
+    """One path, one process: a library of one format is used (written, read), the file is removed, a library of
+    the OTHER format is created at the same path, filled and read back -- by the objects of this process and by a
+    fresh process."""
+    out = []
+    for kind in ("mol", "ens"):
+        for ver in (2, 1):
+            for s in range(n):
+                gs = f"{seed}/reuse/{kind}/{ver}/{s}"
+                out.append({"source": "gen", "kind": kind, "ver": ver, "gen_seed": gs, "n": 3, "fresh": True,
+                            "before": {"ver": 3 - ver, "gen_seed": gs + "/before", "n": 2}})
     return out
 
 
@@ -189,11 +207,17 @@ def run_sessions(sources, seed, mutate=None):
     try:
         for i, src in enumerate(sources):
             rnd = random.Random(f"{seed}/session/{src.get('sid', i)}")
+            before = None
+            if "before" in src:
+                b = {**src, **src["before"]}
+                before = (b["ver"],) + legacy_records(b, materialise(b), rnd)
             items, legacy = legacy_records(src, materialise(src), rnd)
-            ev = lab.session(src["kind"], src["ver"], items, rnd, mutate=mutate, legacy=legacy)
-            tid = f"t{src.get('sid', i)}-{src['source']}-{src['kind']}-v{src['ver']}"
+            ev = lab.session(src["kind"], src["ver"], items, rnd, mutate=mutate, legacy=legacy, before=before,
+                             fresh=bool(src.get("fresh")))
+            tid = f"t{src.get('sid', i)}-{src['source']}-{src['kind']}-v{src['ver']}" + ("-reuse" if before else "")
             traces.append({"tid": tid, "ev": ev})
             meta[tid] = src
+        lab.finish_fresh()
     finally:
         lab.cleanup()
     return traces, meta, lab.calls
@@ -204,10 +228,12 @@ def signature(t, l):
     """(kind of failure) of a rejected trace, for de-duplication and the message.  Diagnostics only."""
     e = t["ev"][l - 1] if l and l <= len(t["ev"]) else {"ev": "?"}
     if e["ev"] == "get" and e["out"] == "ok":
-        w = next((p["x"] for p in t["ev"] if p["ev"] in ("put", "lput") and p["k"] == e["k"]), None)
+        start = max([i + 1 for i, p in enumerate(t["ev"][:l - 1]) if p["ev"] == "remove"] or [0])   # the current file
+        prior = t["ev"][start:l - 1]
+        w = next((p["x"] for p in reversed(prior) if p["ev"] in ("put", "lput") and p["k"] == e["k"]), None)
         if w is None:
             return ("get", "unknown-key", ()), f"read of a key that was never stored: {e['k']}"
-        again = any(p["ev"] == "scribble" and p["k"] == e["k"] and p["h"] == e["h"] for p in t["ev"][:l - 1])
+        again = any(p["ev"] == "scribble" and p["k"] == e["k"] and p["h"] == e["h"] for p in prior)
         diffs = L.explain(w, e["x"])
         # the fields that differ, without positions: /atoms[0]/attrib[4] -> atoms.attrib
         import re
@@ -261,8 +287,8 @@ def background_models(ev, pool_exec):
                            role="LibCodec: two keys, writer + second read-only object, legacy and current file")
 
     def one(dev):
-        cfg = mc_cfg("PoolDev", "K1", dev)
-        if dev in ("DevMagicAll", "DevAlias"):   # without the structural invariants: the read-back clause itself must catch it
+        cfg = mc_cfg("PoolDev", "K1", "DevMemo" if dev == "DevMemoRT" else dev)
+        if dev in ("DevMagicAll", "DevAlias", "DevMemoRT"):   # without the structural invariants: the read-back clause itself must catch it
             cfg["invariants"] = ("KeysAreWritten",)
         r = expect_violation("MCLibCodec", cfg, DEVIATIONS[dev], tag="c01dev", workers=1)
         if r.violated not in DEVIATIONS[dev]:
@@ -278,7 +304,7 @@ def check_and_emit(ev, mod, pool_name, workers=1):
     import shutil
     wd = tlc.workdir("c01mc")
     try:
-        cfg = tlc.write_cfg(wd / f"{mod}.cfg", **mc_cfg(pool_name, "K1"), action_constraints=("EmitPut",))
+        cfg = tlc.write_cfg(wd / f"{mod}.cfg", **mc_cfg(pool_name, "K1", handles="H2"), action_constraints=("EmitPut",))
         r = tlc.run(mod, cfg, workers=workers, timeout=1500, coverage=True)
     finally:
         shutil.rmtree(wd, ignore_errors=True)
@@ -312,6 +338,7 @@ def run(tier, seed, replay_path):
         sources = pool_sessions(pool, seed, per_lib=4)
         n_pool = len(sources)
         sources += gen_sessions(seed, n_per=2000 if big else 240, per_lib=4)
+        sources += reuse_sessions(seed, n=40 if big else 6)
         if big:
             sources += bundled_sessions(seed, limit=60)
         for i, s in enumerate(sources):
@@ -345,6 +372,7 @@ def run(tier, seed, replay_path):
                 "object) that TLC accepted as MolModel!Same as the object put under that key; distinct_nontrivial = "
                 "distinct (abstract written object, schema version) pairs among the accepted traces",
            sessions={"pool": n_pool, "generated": sum(s["source"] == "gen" for s in sources),
+                     "path_reused": sum("before" in s for s in sources),
                      "bundled": sum(s["source"].startswith("bundled") for s in sources)},
            pool_objects=len(pool), rejected_traces=len(bad),
            rejected_signatures={" ".join(map(str, k)): v for k, v in seen.items()}, exhaustive=False)
